@@ -168,8 +168,9 @@ def is_method(fn: ast.AST) -> bool:
 class Analyzer:
     """Summaries and per-function flows for one dynamic class (the class `self` is an instance of)."""
 
-    def __init__(self, repo: Repo, dyn_mod: T.Optional[Module] = None, dyn_cls: T.Optional[ast.ClassDef] = None):
+    def __init__(self, repo: Repo, dyn_mod: T.Optional[Module] = None, dyn_cls: T.Optional[ast.ClassDef] = None, depth: int = MAX_DEPTH):
         self.repo = repo
+        self.depth = depth
         self.dyn_mod = dyn_mod
         self.dyn_cls = dyn_cls
         self._flows: T.Dict[T.Tuple[str, int, int], 'FuncFlow'] = {}
@@ -200,7 +201,8 @@ class Analyzer:
             self._imports[mod.rel] = t
         return t
 
-    def flow(self, mod: Module, qual: str, fn: ast.AST, depth: int = MAX_DEPTH) -> 'FuncFlow':
+    def flow(self, mod: Module, qual: str, fn: ast.AST, depth: T.Optional[int] = None) -> 'FuncFlow':
+        depth = self.depth if depth is None else depth
         key = (mod.rel, id(fn), depth)
         ff = self._flows.get(key)
         if ff is None:
